@@ -446,8 +446,8 @@ prop(
                 "of a child that exits 0 (never a process exit, panic or silently empty document)."),
     level_note="trusts rapid's state-machine driver, os/exec and the helper harness/cmd/storechild (public writer/reader API only)",
     cmds={"VERIF_STORECHILD": "cmd/storechild"},
-    jobs=[{"test": "TestC19", "checks": 120, "steps": 12, "timeout": 400, "thorough": {"checks": 600, "steps": 14, "shards": 16, "timeout": 1700}}],
-    floor={"quick": 30, "thorough": 1000},
+    jobs=[{"test": "TestC19", "checks": 150, "steps": 14, "timeout": 400, "thorough": {"checks": 600, "steps": 16, "shards": 16, "timeout": 1700}}],
+    floor={"quick": 12, "thorough": 1000},
 )
 
 prop(
